@@ -17,6 +17,7 @@
 package clientcredentials
 
 import (
+	"math"
 	"strings"
 	"time"
 )
@@ -99,7 +100,11 @@ func (r TokenEndpointResponse) TokenInfo() (*TokenInfo, error) {
 
 	var expiry time.Time
 	if r.ExpiresIn != 0 {
-		expiry = time.Now().Add(time.Duration(r.ExpiresIn) * time.Second)
+		// values beyond what a duration can express would wrap around (a huge negative
+		// value would become a huge positive one)
+		const maxSeconds = int64(math.MaxInt64 / time.Second)
+
+		expiry = time.Now().Add(time.Duration(min(max(r.ExpiresIn, -maxSeconds), maxSeconds)) * time.Second)
 	}
 
 	return &TokenInfo{
